@@ -505,6 +505,29 @@ impl StandardLinearModel {
     }
 }
 
+/// Native read accessors for verification harnesses (the existing getters are wasm-only).
+#[cfg(feature = "verif_hooks")]
+impl StandardLinearModel {
+    pub fn verif_objective(&self) -> Vec<f64> {
+        self.objective.clone()
+    }
+    pub fn verif_rows(&self) -> Vec<(Vec<f64>, f64)> {
+        self.constraints
+            .iter()
+            .map(|c| (c.coefficients.clone(), c.rhs))
+            .collect()
+    }
+    pub fn verif_variables(&self) -> Vec<String> {
+        self.variables.clone()
+    }
+    pub fn verif_objective_offset(&self) -> f64 {
+        self.objective_offset
+    }
+    pub fn verif_flip_objective(&self) -> bool {
+        self.flip_objective
+    }
+}
+
 #[cfg_attr(target_arch = "wasm32", wasm_bindgen)]
 #[cfg(target_arch = "wasm32")]
 impl StandardLinearModel {
